@@ -451,13 +451,22 @@ func (m *MdnsManager) processMdnsEntry(elements map[string]string, name, host st
 		return
 	}
 
-	// remove IPv6 local link addresses
+	// remove IPv6 local link addresses and duplicates
 	var newAddresses []net.IP
 	for _, address := range addresses {
 		if address.To4() == nil && address.IsLinkLocalUnicast() {
 			continue
 		}
-		newAddresses = append(newAddresses, address)
+		isNewElement := true
+		for _, item := range newAddresses {
+			if item.String() == address.String() {
+				isNewElement = false
+				break
+			}
+		}
+		if isNewElement {
+			newAddresses = append(newAddresses, address)
+		}
 	}
 	addresses = newAddresses
 
